@@ -194,6 +194,7 @@ func cmdCheck(args []string) int {
 	tier := fs.String("tier", os.Getenv("VERIF_TIER"), "quick|thorough")
 	evidence := fs.String("evidence", "", "evidence file (default /verif/evidence/<id>.json)")
 	verbose := fs.Bool("v", false, "list every obligation")
+	outDir := fs.String("out", "", "write evidence and replay files below this directory instead of /verif/evidence (self-test runs on scratch trees)")
 	fs.Parse(args)
 	if *tier == "" {
 		*tier = "quick"
@@ -216,6 +217,12 @@ func cmdCheck(args []string) int {
 		cfg = SolveConfig{QuickS: 10, SlowS: 60, Workers: 16, Thorough: true}
 	}
 	replayDir := filepath.Join(verifDir, "evidence", "replay", *prop)
+	if *outDir != "" {
+		replayDir = filepath.Join(*outDir, "replay", *prop)
+		if *evidence == "" {
+			*evidence = filepath.Join(*outDir, *prop+".json")
+		}
+	}
 	os.RemoveAll(replayDir)
 	res := runProperty(p, s, *prop, cfg)
 	res.LoadS = loadS
